@@ -425,10 +425,9 @@ func genHostileCase(t *rapid.T, f *Format, maxOps, maxCount int) HostileCase {
 
 // genGrowthCase draws a long memory probe: an optional valid prefix, a start
 // fragment, then a very long run of one fragment kind.
-func genGrowthCase(t *rapid.T, f *Format, packets int) HostileCase {
+func genGrowthCase(t *rapid.T, f *Format, packets int, kind string) HostileCase {
 	c := genCfg(t, f)
 	hc := HostileCase{Cfg: c, Mode: "mem"}
-	kind := rapid.SampledFrom([]string{"mid", "mid", "start", "single", "raw"}).Draw(t, "growkind")
 	size := rapid.SampledFrom([]int{100, 700, 1400, 1400}).Draw(t, "growsize")
 	if rapid.Bool().Draw(t, "prefix") {
 		fr := genFrame(t, f, c, 0, 1)
